@@ -53,6 +53,32 @@ def make_actions(names, rnd, steps, episodes, same=False):
     return out
 
 
+def session_script(src, rnd, steps, episodes):
+    """Several concurrent remote sessions from one node to ONE remote address, then a remote command over 'the' session, then idling past
+    the inactivity time-out, with a few more commands / logoffs on the way: which of several equal candidates a lookup picks must not depend on
+    unseeded identifiers. -> per-episode action lists, or None if the scenario's action map has no usable login/command pair."""
+    cfg, _ = gen.gen(src[1]["seed"], src[1].get("family"), src[1].get("knobs"))
+    am = next(a for a in cfg["agents"] if a.get("type") == "proxy-agent")["action_space"]["action_map"]
+    logins = [i for i in am if am[i]["action"] == "node-session-remote-login" and am[i]["options"].get("password") == "admin"]
+    for li in logins:
+        o = am[li]["options"]
+        same = lambda a: [i for i in am if am[i]["action"] == a and am[i]["options"].get("node_name") == o["node_name"]  # noqa: E731
+                          and am[i]["options"].get("remote_ip") == o["remote_ip"]]
+        cmds, offs = same("node-send-remote-command"), same("node-session-remote-logoff")
+        if not cmds:
+            continue
+        out = []
+        for _ in range(episodes):
+            n_login = rnd.choice([2, 2, 3])
+            acts = [li] * n_login + [0] * rnd.randint(0, 6) + [cmds[0]]
+            while len(acts) < steps:
+                r = rnd.random()
+                acts.append(cmds[0] if r < 0.04 else (offs[0] if offs and r < 0.06 else (li if r < 0.08 else 0)))
+            out.append(acts[:steps])
+        return out
+    return None
+
+
 def div_mech(arm_name, dv, base_steps):
     i, ep, t, what, detail = dv
     if what.startswith("agent-history"):
@@ -110,6 +136,10 @@ class Check:
         for g in range(8 if q else 32):
             sd = seed * 1000 + g
             specs.append({"name": f"gen-{sd}", "src": ["gen", {"seed": sd, "knobs": {"p_random_agent": 0.5}}], "seed": sd, "steps": steps, "episodes": 2})
+        for g in range(6 if q else 24):  # several concurrent sessions to one address, a command, then the inactivity time-out (70 steps: > 2 x time-out)
+            sd = seed * 1000 + 400 + g
+            specs.append({"name": f"gen-sessions-{sd}", "src": ["gen", {"seed": sd, "family": "lan" if g % 2 else "routed", "knobs": {"p_random_agent": 0.0, "max_actions": 1000, "max_len": 80}}],
+                          "seed": sd, "steps": 64 if q else 72, "episodes": 1 if q else 2, "script": "sessions"})
         return specs
 
     def run_case(self, spec):
@@ -118,6 +148,12 @@ class Check:
         rnd = random.Random(spec["seed"])
         names = action_names(spec["src"])
         acts = make_actions(names, rnd, spec["steps"], spec["episodes"])
+        if spec.get("script") == "sessions":
+            acts = session_script(spec["src"], rnd, spec["steps"], spec["episodes"])
+            if acts is None:
+                cov.inc("session_script_not_applicable")
+                return {"violations": [], "cov": cov.d, "nontrivial": False, "digest": digest([spec["src"], spec["seed"]]), "sample": {"case": spec, "skipped": "no login/command pair"}}
+            cov.inc("session_scripts")
         base_spec = {"src": spec["src"], "seed": spec["seed"], "actions": acts, "keep_obs": True, "max_len": spec["steps"] + 2}
         base = traj.run_child(base_spec, hashseed=0)
         if "error" in base:
@@ -129,7 +165,7 @@ class Check:
         elif spec["src"][0] == "variant" or "defender-first" in spec["name"]:
             arms += [("hashseed", {"hashseed": h}) for h in (3, 4)]
         sens = base["diag"]["sensitive"]
-        sensitive = sens["nmap_scans"] > 0 or sens["prob_agent_steps"] >= 50 or len(sens["tap_stages"]) > 1
+        sensitive = sens["nmap_scans"] > 0 or sens["prob_agent_steps"] >= 50 or len(sens["tap_stages"]) > 1 or spec.get("script") == "sessions"
         digs = []
         from concurrent.futures import ThreadPoolExecutor
 
